@@ -101,6 +101,14 @@ def model_tree(tree, defs, state):
     return out
 
 
+def _flat_texts(tree):
+    for x in tree:
+        if isinstance(x, list):
+            yield from _flat_texts(x)
+        else:
+            yield x
+
+
 def render(tree):
     parts = []
     for x in tree:
@@ -172,6 +180,16 @@ def oracle_history(case):
             out.bad(f"state-differs-from-model:after-{op}", f"{text!r} after {seq}: got {got_text!r} expected "
                                                             f"{render(exp)!r}; defs={gen_hed.def_strings(defs)}")
             break
+        # the swapped tags are Def / Def-expand tags in every respect, e.g. for a term search on the same object
+        flat_exp = list(_flat_texts(exp))
+        want = {"def": any(t.casefold().startswith("def/") for t in flat_exp),
+                "def-expand": any(t.casefold().startswith("def-expand/") for t in flat_exp)}
+        from hed.models.query_handler import QueryHandler
+        for term, expected in want.items():
+            if bool(QueryHandler(term).search(obj)) != expected:
+                out.bad(f"term-search-disagrees-with-state:after-{op}", f"{term!r} expected {expected} on {got_text!r} "
+                                                                        f"after {seq}")
+                break
         for o, canon_exp, label in kept:
             try:
                 g = gen_tab.parsed_tree(str(o))
